@@ -66,4 +66,10 @@ def targets (o : Op) (d : DocSummary) : Bool :=
   | [(kind, sels)] => kind == some o.root && !sels.isEmpty && sels.all (· == some o.field)
   | _ => false
 
+/-- hypothesis-graphql's contract, as far as targeting goes (a hypothesis of `document_targets_under_contract`,
+    exercised by sampling in the harness): `queries/mutations(schema, fields=fs)` only produce documents with a single
+    operation of that kind whose top-level selections are a non-empty list of plain fields taken from `fs`. -/
+def GenContract (gen : Root → List Name → DocSummary → Prop) : Prop :=
+  ∀ r fs d, gen r fs d → ∃ sels, d = [(some r, sels)] ∧ sels ≠ [] ∧ ∀ x ∈ sels, ∃ f ∈ fs, x = some f
+
 end SV.Spec.C20
